@@ -583,6 +583,54 @@ FloatNext ==
   \/ ((TrViewDur \/ TrViewF64 \/ TrDoy) /\ UNCHANGED sw) \/ TrFromView \/ TrFromDoy \/ TrParseNumeric
 
 -----------------------------------------------------------------------------
+(* Extras: behaviour beyond the listed properties (spec/Extras.tla); run by `bin/check EXTRAS` only *)
+TrXApprox == IsOp("x_approx") /\ KeepE /\ KeepS /\ KeepW /\ IsDur(E.res)
+               /\ d' = DV(E.res) /\ d' \in X!ApproxSet(d) /\ out' = <<"dur", d'>>
+TrXConsts == IsOp("x_consts") /\ KeepAll /\ UNCHANGED sw
+               /\ DurIs(E.zero, B!Zero) /\ DurIs(E.max, M!MaxV) /\ DurIs(E.min, M!MinV)
+               /\ DurIs(E.eps, B!FromInt(1)) /\ DurIs(E.minpos, B!FromInt(1)) /\ DurIs(E.minneg, B!FromInt(-1))
+               /\ DurIs(E.dflt, B!Zero)
+TrXUnitU8 == IsOp("x_unit_u8") /\ KeepAll /\ UNCHANGED sw /\ E.unit = X!UnitOfU8(E.b) /\ E.back = X!U8OfUnit(E.unit)
+TrXScaleU8 == IsOp("x_scale_u8") /\ KeepAll /\ UNCHANGED sw /\ E.ts = X!ScaleOfU8(E.b) /\ E.back = E.ts
+               /\ E.gnss = X!IsGnss(E.ts) /\ E.leap = X!UsesLeapSeconds(E.ts)
+               /\ E.name = X!ScaleName(E.ts) /\ E.rinex = X!RinexName(E.ts)
+TrXWithHms == IsOp("x_with_hms") /\ KeepD /\ KeepS /\ KeepW /\ UNCHANGED sw /\ IsEp(E.res)
+               /\ e' = X!Ep(e.ts, X!WithHms(e.v, Mg(E.h), Mg(E.mi), Mg(E.s), E.strict)) /\ EpIs(E.res, e') /\ eout' = <<"epoch", e'>>
+TrXWithTimeFrom == IsOp("x_with_time_from") /\ KeepD /\ KeepS /\ KeepW /\ UNCHANGED sw /\ IsEp(E.res)
+               /\ \E oc \in {X!Ep(e.ts, x) : x \in X!ConvSet(EV(E.o), e.ts)} :
+                     /\ e' = X!Ep(e.ts, IF E.mode = "time" THEN X!WithTimeFrom(e.v, oc.v)
+                                        ELSE LET y == M!Decompose(oc.v) IN X!WithHms(e.v, y[3], y[4], y[5], E.mode = "hms_strict"))
+                     /\ EpIs(E.res, e') /\ eout' = <<"epoch", e'>>
+(* q * Freq for an i64 or f64 q: the period K / q as the nearest double, truncated toward zero *)
+TrXFreq == IsOp("x_freq") /\ KeepE /\ KeepS /\ KeepW /\ IsDur(E.res) /\ E.q.k = "fin" /\ E.q.m # <<>>
+               /\ LET k  == X!FreqK(E.f)
+                       s  == IF E.q.e < 0 THEN -E.q.e ELSE 0
+                       \* K / (m * 2^e) = (K * 2^s') / (m * 2^(s'+e))
+                       r  == Dy!RN53(B!MulMag(k.m, B!Pow2Mag(s)), B!MulMag(E.q.m, B!Pow2Mag(s + E.q.e)))
+                       v  == M!Clamp(B!Mk(E.q.neg, Dy!TruncMag(r[1], r[2])))
+                   IN  d' = v /\ DurIs(E.res, d') /\ out' = <<"dur", d'>>
+(* TimeSeries::next_back (shares the cursor with next) and len() (an f64 estimate: within one of the count) *)
+TrXNextBack == IsOp("x_next_back") /\ KeepD /\ KeepE /\ KeepW /\ X!SNextBack /\ ItemIs(E.res, sout')
+TrXLen == IsOp("x_len") /\ KeepAll /\ UNCHANGED sw
+               /\ (ser.k = 0 => (E.len - X!CountOf(ser)) \in {-1, 0, 1})
+               /\ E.lo = E.len /\ E.hi = E.len + 1
+(* next_weekday_at_midnight / noon: next()/previous() followed by with_hms_strict *)
+TrXNextAt == IsOp("x_next_at") /\ KeepD /\ KeepS /\ KeepW /\ UNCHANGED sw /\ IsEp(E.res) /\
+             \E rc \in ConvCands(X!TAI) :
+                LET k0 == IF E.next THEN (E.w - X!WeekdayIn(X!TAI, rc.v) + 7) % 7 ELSE (X!WeekdayIn(X!TAI, rc.v) - E.w + 7) % 7
+                    k  == IF k0 = 0 THEN 7 ELSE k0
+                    moved == IF E.next THEN M!DAdd(e.v, B!Mul(B!FromInt(k), Ur[7])) ELSE M!DSub(e.v, B!Mul(B!FromInt(k), Ur[7]))
+                IN  /\ e' = X!Ep(e.ts, X!WithHms(moved, Mg(E.h), B!Zero, B!Zero, TRUE))
+                    /\ EpIs(E.res, e') /\ eout' = <<"epoch", e'>>
+Dev_F1X == /\ Open("F1") /\ IsOp("x_approx") /\ KeepE /\ KeepS /\ KeepW /\ IsDur(E.res)
+           /\ d' = M!F1Round(d, Ur[X!LargestUnit(d)]) /\ d' \notin X!ApproxSet(d) /\ DurIs(E.res, d') /\ out' = <<"dur", d'>>
+           /\ Known("F1")
+ExtrasNext ==
+  \/ Dev_F1X
+  \/ TrXApprox \/ TrXConsts \/ TrXUnitU8 \/ TrXScaleU8 \/ TrXWithHms \/ TrXWithTimeFrom \/ TrXFreq
+  \/ TrXNextBack \/ TrXLen \/ TrXNextAt
+
+-----------------------------------------------------------------------------
 TraceInit == l = Start /\ M!DInit /\ X!EInit /\ sw = B!Zero /\ X!SInit /\ W!WInit
 TraceNext == \/ (DurationNext /\ KeepE /\ KeepS /\ KeepW)
              \/ EpochNext
@@ -590,6 +638,7 @@ TraceNext == \/ (DurationNext /\ KeepE /\ KeepS /\ KeepW)
              \/ (WeekdayNext /\ KeepD /\ KeepE /\ KeepS)
              \/ TextNext
              \/ FloatNext
+             \/ ExtrasNext
 TraceSpec == TraceInit /\ [][TraceNext]_vars
 
 (* invariants evaluated at every step of every validated trace *)
